@@ -21,6 +21,8 @@ let show_out (o : rt_out) : string option =
   | RoNackNoPdu (t, s, r, m) -> Some (Printf.sprintf "nk:%s:%s:%s:%s:0" (zs t) (zs s) (zs r) (zs m))
   | RoAcked (_, _) -> None
   | RoWait (t, w, hd) -> Some (Printf.sprintf "w:%s:%s:%s" (zs t) (zs w) (zs hd))
+  | RoEpoll (t, et) -> Some (Printf.sprintf "ep:%s:%s" (zs t) (zs et))
+  | RoIoRet (t, r) -> Some (Printf.sprintf "io:%s:%s" (zs t) (zs r))
   | RoDump (t, l) ->
       let items = List.map (fun (d, n) ->
         Printf.sprintf "%s/%s/%s/%s" (zs d) (zs n.qn_sess) (zs n.qn_mid) (zs n.qn_cnt)) l in
@@ -93,6 +95,7 @@ let c06 toks =
               step (RtDisconnect (z_of_int si, zi reason)); dead.(si) <- true
             end;
             go tl
+        | "I" :: tmo :: tl -> step (RtIoProcess (zi tmo)); go tl
         | "Q" :: tl -> step RtDump; go tl
         | _ -> failwith "c06 event" in
       go evtoks;
